@@ -93,7 +93,13 @@ func init() {
 	}
 	props["C10"] = &PropSpec{
 		ID: "C10", Level: "exploration", Scenarios: []string{"cdp", "cdp", "lend"},
-		Oracles:   func(w *World) []Oracle { return []Oracle{newC10()} },
+		Oracles: func(w *World) []Oracle {
+			if w.Cdp == nil {
+				return []Oracle{newC10()}
+			}
+			// "no unaccounted remainder stays in auction custody": the custody ledger of the auctionsV2 account
+			return []Oracle{newC10(), &relabel{inner: newC11(), only: "c11.custody", prop: "C10", id: "c10.custody"}}
+		},
 		Quick:     Budget{Runs: 160, MaxEvents: 180},
 		Thorough:  Budget{Runs: 6000, MaxEvents: 500},
 		Essential: []string{"c10.bid_checked"},
@@ -125,6 +131,14 @@ func init() {
 	props["C16"] = &PropSpec{
 		ID: "C16", Level: "exploration", Scenarios: []string{"cdp"},
 		NewHarness: func(spec *PropSpec) Harness { return &c16Harness{spec: spec} },
+		TweakCfg: func(r *Rng, cfg *Config) {
+			if cfg.Scenario == "dex" {
+				cfg.Knobs["order_boost"] = 2
+				cfg.Knobs["burst_boost"] = int64(r.Intn(4))
+				cfg.Knobs["bare_pairs"] = []int64{0, 1, 2, 3}[r.Intn(4)]
+				cfg.Knobs["farm_boost"] = int64(r.Intn(3))
+			}
+		},
 		Quick:      Budget{Runs: 48, MaxEvents: 120},
 		Thorough:   Budget{Runs: 2500, MaxEvents: 400},
 		Essential:  []string{"c16.block_hashes_compared", "c16.fresh_process_replica_compared"},
@@ -200,6 +214,11 @@ func registerDerived() {
 			props["C20"].Scenarios = append(props["C20"].Scenarios, derive(ctl, "+export", c20Gens))
 		}
 	}
+	if scenarios["oracle"] != nil {
+		// the (unwrapped) oracle pipeline hooks under hostile packet fates: only the no-escaped-panic and replica checks apply
+		props["C15"].Scenarios = append(props["C15"].Scenarios, "oracle")
+		props["C16"].Scenarios = append(props["C16"].Scenarios, "oracle")
+	}
 	for _, base := range []string{"cdp", "dex", "lend"} {
 		if scenarios[base] == nil || scenarios[base].Gens == nil {
 			continue
@@ -213,6 +232,10 @@ func registerDerived() {
 		props["C20"].Scenarios = append(props["C20"].Scenarios, e)
 		props["C15"].Scenarios = append(props["C15"].Scenarios, i)
 		props["C16"].Scenarios = append(props["C16"].Scenarios, base)
+		if base == "dex" {
+			// the order-dependent aggregations the property names live in matching and reward distribution: weight 3
+			props["C16"].Scenarios = append(props["C16"].Scenarios, base, base)
+		}
 	}
 }
 
@@ -264,4 +287,23 @@ func mergeLendParts() {
 		c.Rule += "; the same for borrow positions in the lend scenario (e-mode and bridged thresholds, seizure = exact bank deltas pool -> auction custody, one auction, bounded liveness over the borrow list)"
 		c.Assume = append(c.Assume, l.Assume...)
 	}
+}
+
+// relabel runs another property's oracle and reports only the violations of one of its sub-oracles under this property.
+type relabel struct {
+	inner Oracle
+	only  string
+	prop  string
+	id    string
+}
+
+func (r *relabel) ID() string                 { return r.id }
+func (r *relabel) Before(w *World, ev *Event) { r.inner.Before(w, ev) }
+func (r *relabel) After(w *World, ev *Event, res Result) *Violation {
+	v := r.inner.After(w, ev, res)
+	if v == nil || v.OracleID != r.only {
+		return nil
+	}
+	v.Property, v.OracleID = r.prop, r.id
+	return v
 }
